@@ -59,8 +59,14 @@ def _work(args):
             out['lines'] += len(rp.log)
             if out['sample'] is None and behs:
                 out['sample'] = {'binding': name, 'variant': vtag, 'behaviour': behs[len(behs) // 2]}
+            first = {}
+            for line, clause in verdict:          # only the first deviating call of a behaviour is reported:
+                bi = rp.where[line - 1][0]        # later clashes in the same behaviour may be its echoes
+                first[bi] = min(first.get(bi, line), line)
             for line, clause in verdict:
                 bi, ei, shape = rp.where[line - 1]
+                if first[bi] != line:
+                    continue
                 if rel(clause, shape):
                     out['viol'].append({'clause': clause, 'shape': shape, 'behaviour': behs[bi], 'event_index': ei,
                                         'logged': rp.log[line - 1], 'variant': vtag, 'binding': name})
